@@ -3,6 +3,7 @@ import QipVerif.Model.Sim
 import QipVerif.Model.SimObj
 import QipVerif.Model.SimPulse
 import QipVerif.Model.SimEdit
+import QipVerif.Model.SimLoad
 /-! Driver for the simulator / world model (C02, C16), exact backend.
 
 Request (one line):
@@ -337,6 +338,10 @@ def hist (fs : List String) : Option String := do
   if !versions.all (·.constructible cfg) then pure "err value" else
   let w0 : W := { heap := ⟨lists⟩, sim := none, rng := rng, log := [],
                   comp := defaultCompiler, proc := { pulses := none, phase := 0 } }
+  -- which circuits take the early-return path of `load_circuit` (`empties=<0|1,…>`), and whether `global_phase` is
+  -- overwritten on that path (`poe=<0|1>`, default 1)
+  let pulseFree : List Bool := ((fNats? fs "empties").getD []).map (· != 0)
+  let poe : Bool := (fStr? fs "poe").getD "1" != "0"
   let isGarbage (w : W) : Bool := match w.sim with | some s => s.f.form == .garbage | none => false
   let (w, _, outs) := calls.foldl (fun (acc : W × Circuit × List String) call =>
       let cur := acc.2.1
@@ -344,6 +349,11 @@ def hist (fs : List String) : Option String := do
       | .inl v =>
         let c' := versions.getD v cur
         (acc.1, c', acc.2.2 ++ ["X!H" ++ ";".intercalate ((acc.1.heap.cells.take lists.length).map showList)])
+      | .inr (.load ci u) =>
+        -- `load_circuit` with its early-return path (Model/SimLoad.lean)
+        let r := loadCircuitE cfg poe phases pulseFree acc.1 ci u
+        let o := "C" ++ showTok r.2 ++ "!H" ++ ";".intercalate ((r.1.heap.cells.take lists.length).map showList)
+        (r.1, cur, acc.2.2 ++ [o])
       | .inr call =>
         let (w', o) := execCall cfg mode cur inits phases acc.1 call
         let o := o ++ "!H" ++ ";".intercalate ((w'.heap.cells.take lists.length).map showList)
